@@ -379,7 +379,19 @@ func c13FileCache(c *eng.Ctx) {
 			switch {
 			case eng.CalleeIs(cc, "tailscale.com/atomicfile", "WriteFile"):
 				mode, isC := eng.ConstInt(cc.Args[2])
-				okk := f == fw && isC && mode&0o077 == 0 && eng.OriginConv(cc.Args[0]) == ssa.Value(fw.Params[0]) && eng.Origin(cc.Args[1]) == ssa.Value(fw.Params[1])
+				pathV := eng.OriginConv(cc.Args[0])
+				// (the path may come from a one-line accessor of the cache: string(f))
+				if inner, hc := eng.ThroughHelper(cc.Args[0], func(g *ssa.Function) bool { return eng.IsHelper(f, g) }); inner != nil {
+					if prm, isP := eng.OriginConv(inner).(*ssa.Parameter); isP {
+						h := eng.Callee(&hc.Call)
+						for i, q := range h.Params {
+							if q == prm && i < len(hc.Call.Args) {
+								pathV = eng.OriginConv(hc.Call.Args[i])
+							}
+						}
+					}
+				}
+				okk := f == fw && isC && mode&0o077 == 0 && pathV == ssa.Value(fw.Params[0]) && eng.Origin(cc.Args[1]) == ssa.Value(fw.Params[1])
 				nw++
 				c.Check(okk, "R-C13-3", f, in.Pos(), site, "FileCache.Write(data) = atomicfile.WriteFile(path of this cache, data, constant owner-only mode)", "in "+eng.FName(f)+" mode "+eng.ValStr(cc.Args[2]))
 			case eng.CalleeIs(cc, "os", "MkdirAll") || eng.CalleeIs(cc, "os", "Mkdir"):
